@@ -22,9 +22,9 @@ typedef std::vector<uint8_t> Bytes;
 static inline bool same(const uint8_t *a, const uint8_t *b, size_t n) { return n == 0 || memcmp(a, b, n) == 0; }
 
 // ---------------------------------------------------------------- coverage counters local to the worker, flushed per case
-static uint64_t g_status[NCODEC][9];
-static uint64_t g_state[NCODEC][8];
-static bool g_trans_seen[NCODEC][8][8][9][8];
+static uint64_t g_status[NCODEC_ALL][9];
+static uint64_t g_state[NCODEC_ALL][8];
+static bool g_trans_seen[NCODEC_ALL][8][8][9][8];
 static int byte_class(const Alpha &a, uint8_t c)
 {
     if (c == a.START)
@@ -44,7 +44,7 @@ static int byte_class(const Alpha &a, uint8_t c)
 static void flush_cov()
 {
     char nm[80];
-    for (int k = 0; k < NCODEC; k++)
+    for (int k = 0; k < NCODEC_ALL; k++)
     {
         for (int s = 0; s < 9; s++)
             if (g_status[k][s])
@@ -82,13 +82,20 @@ static std::string wit(const Run &r, size_t upto)
         snprintf(b, sizeof b, "%d,", r.st[i]);
         stt += b;
     }
-    return "codec=" + std::string(CODEC_NAME[r.k]) + " cap=" + std::to_string(r.cap) + " stream_len=" + std::to_string(n) + " at=" +
+    std::string alpha;
+    if (r.k == CUSTOM)
+    {
+        const Alpha &a = ALPHA[CUSTOM];
+        const uint8_t v[6] = {a.START, a.STOP, a.STUB, a.C_START, a.C_STOP, a.C_STUB};
+        alpha = " alphabet(START,STOP,STUB,codes)=" + vf::hex(v, 6);
+    }
+    return "codec=" + std::string(CODEC_NAME[r.k]) + alpha + " cap=" + std::to_string(r.cap) + " stream_len=" + std::to_string(n) + " at=" +
            std::to_string(upto) + " stream[" + std::to_string(from) + "..]=" + vf::hex(r.s->data() + from, std::min(n, upto + 1) - from, 80) +
            " status[" + std::to_string(from) + "..]=" + stt;
 }
 static std::string key(const Run &r, const char *clause, const char *what)
 {
-    return std::string("C05:") + clause + ":" + CODEC_NAME[r.k] + ":" + what;
+    return std::string(key_prefix(r.k)) + "C05:" + clause + ":" + CODEC_NAME[r.k] + ":" + what;
 }
 
 // index of the start marker for a packet reported at stream index i (DESIGN §3a); -2 = there is none
@@ -188,8 +195,10 @@ static void run_stream(Codec k, int cap, const Bytes &s, unsigned placement, Run
                 VF_OK("(b) checked: v1");
             else if (k == V0)
                 VF_OK("(b) checked: v0");
-            else
+            else if (k == LEGACY)
                 VF_OK("(b) checked: legacy");
+            else
+                VF_OK("custom-alphabet: (b) checked");
         }
     }
     (void)rx.line(); // terminator write at end of stream as well
@@ -279,8 +288,10 @@ static void audit(const Run &r)
                     VF_OK("(d) after a non-empty prefix: v1");
                 else if (r.k == V0)
                     VF_OK("(d) after a non-empty prefix: v0");
-                else
+                else if (r.k == LEGACY)
                     VF_OK("(d) after a non-empty prefix: legacy");
+                else
+                    VF_OK("custom-alphabet: (d) after a non-empty prefix");
             }
         }
         else
@@ -298,8 +309,10 @@ static void audit(const Run &r)
                 VF_OK("(c) checked: v1");
             else if (r.k == V0)
                 VF_OK("(c) checked: v0");
-            else
+            else if (r.k == LEGACY)
                 VF_OK("(c) checked: legacy");
+            else
+                VF_OK("custom-alphabet: (c) checked");
         }
     }
 }
@@ -407,11 +420,10 @@ VF_SUITE(exhaustive, exh_count, exh_run)
 
 // (2) fault injection into valid traffic of 3..5 frames: every position x every fault
 static uint64_t fault_count() { return NCODEC * (vf::thorough() ? 2500 : 150); }
-static void fault_run(uint64_t idx)
+static void fault_body(Codec k, vf::Rng &r, uint64_t idx)
 {
-    Codec k = (Codec)(idx % NCODEC);
     const Alpha &a = ALPHA[k];
-    vf::Rng r(vf::seed(), 0xC05F, idx);
+    (void)idx;
     int cap = r.chance(1, 2) ? CAPS[r.below(4)] : r.range(2, 24);
     int nfr = r.range(3, 5);
     Bytes base;
@@ -467,6 +479,11 @@ static void fault_run(uint64_t idx)
         vf::sample("faults: codec=%s cap=%d base traffic (%d frames) = %s, every position x {drop,dup,flip->6 markers,bitflip,insert 6 markers,truncate,truncate+resume}",
                    CODEC_NAME[k], cap, nfr, vf::hex(base.data(), base.size(), 60).c_str());
     flush_cov();
+}
+static void fault_run(uint64_t idx)
+{
+    vf::Rng r(vf::seed(), 0xC05F, idx);
+    fault_body((Codec)(idx % NCODEC), r, idx);
 }
 VF_SUITE(faults, fault_count, fault_run)
 
@@ -561,11 +578,10 @@ static void garbage_token(vf::Rng &r, Codec k, int cap, Bytes &s)
     }
 }
 static uint64_t noise_count() { return NCODEC * (vf::thorough() ? 60000 : 6000); }
-static void noise_run(uint64_t idx)
+static void noise_body(Codec k, vf::Rng &r, uint64_t idx)
 {
-    Codec k = (Codec)(idx % NCODEC);
     const Alpha &a = ALPHA[k];
-    vf::Rng r(vf::seed(), 0xC05A, idx);
+    (void)idx;
     int cap = r.chance(1, 3) ? CAPS[r.below(4)] : r.chance(1, 8) ? r.range(65, 300) : r.range(2, 64);
     size_t target = r.chance(1, 10) ? (size_t)r.range(1000, 4096) : (size_t)r.range(0, 300);
     Bytes s;
@@ -581,15 +597,19 @@ static void noise_run(uint64_t idx)
         vf::sample("noise: codec=%s cap=%d garbage(%zu bytes)+3 frames = %s", CODEC_NAME[k], cap, glen, vf::hex(s.data(), s.size(), 90).c_str());
     flush_cov();
 }
+static void noise_run(uint64_t idx)
+{
+    vf::Rng r(vf::seed(), 0xC05A, idx);
+    noise_body((Codec)(idx % NCODEC), r, idx);
+}
 VF_SUITE(noise, noise_count, noise_run)
 
 // (4) frames around the capacity: |U| = cap-2 .. cap+2, alone, after a good frame, followed by good frames
 static uint64_t fit_count() { return NCODEC * (vf::thorough() ? 6000 : 490); }
-static void fit_run(uint64_t idx)
+static void fit_body(Codec k, vf::Rng &r, uint64_t idx)
 {
-    Codec k = (Codec)(idx % NCODEC);
     const Alpha &a = ALPHA[k];
-    vf::Rng r(vf::seed(), 0xC05C, idx);
+    (void)idx;
     static const int FC[] = {2, 3, 4, 8, 16, 33, 64};
     int cap = FC[(idx / NCODEC) % 7];
     for (int ulen = std::max(1, cap - 2); ulen <= cap + 2; ulen++)
@@ -607,15 +627,19 @@ static void fit_run(uint64_t idx)
         }
     flush_cov();
 }
+static void fit_run(uint64_t idx)
+{
+    vf::Rng r(vf::seed(), 0xC05C, idx);
+    fit_body((Codec)(idx % NCODEC), r, idx);
+}
 VF_SUITE(fit, fit_count, fit_run)
 
 // (5) the directed witnesses of DESIGN "Read/probed": START STUB x body STOP, and one delimiter of garbage before frames
 static uint64_t directed_count() { return NCODEC * (vf::thorough() ? 600 : 100); }
-static void directed_run(uint64_t idx)
+static void directed_body(Codec k, vf::Rng &r, uint64_t idx)
 {
-    Codec k = (Codec)(idx % NCODEC);
     const Alpha &a = ALPHA[k];
-    vf::Rng r(vf::seed(), 0xC05D, idx);
+    (void)idx;
     int cap = r.range(4, 40);
     for (int x = 0; x < 256; x += 1 + (int)r.below(5))
     {
@@ -643,7 +667,93 @@ static void directed_run(uint64_t idx)
     vf::count_case(vf::mix(idx, vf::seed()), true);
     flush_cov();
 }
+static void directed_run(uint64_t idx)
+{
+    vf::Rng r(vf::seed(), 0xC05D, idx);
+    directed_body((Codec)(idx % NCODEC), r, idx);
+}
 VF_SUITE(directed, directed_count, directed_run)
+
+// (6) receive buffers of 64 KiB and more: a frame that fits must be delivered, one that does not must overflow
+static const int BIGCAPS[] = {65535, 65536, 65537, 65600, 70000, 131072 + 5};
+static uint64_t big_count() { return NCODEC * (sizeof BIGCAPS / sizeof BIGCAPS[0]) * (vf::thorough() ? 4 : 1); }
+static void big_run(uint64_t idx)
+{
+    Codec k = (Codec)(idx % NCODEC);
+    const Alpha &a = ALPHA[k];
+    int cap = BIGCAPS[(idx / NCODEC) % 6];
+    vf::Rng r(vf::seed(), 0xC05B, idx);
+    auto payload = [&](size_t n) {
+        Bytes p(n);
+        bool biased = r.chance(1, 2);
+        for (auto &b : p)
+            b = biased && r.chance(1, 4) ? (uint8_t)(r.chance(1, 2) ? a.START : a.STUB) : (uint8_t)('a' + r.below(26));
+        return p;
+    };
+    Bytes s;
+    append(s, ref_frame(a, payload((size_t)cap - 2)));             // |U| = cap-1: the longest frame that fits
+    append(s, ref_frame(a, payload((size_t)cap - 1 + r.below(3)))); // |U| = cap .. cap+2: does not fit
+    append(s, ref_frame(a, payload(r.below(20))));
+    append(s, ref_frame(a, payload((size_t)cap - 2 - r.below(2000)))); // long, fits
+    run_and_audit(k, cap, s, 1 + (unsigned)r.below(2)); // exact heap block (normal / mirrored); the guard-pattern walk is O(cap) per byte
+    VF_OK("receive buffer >= 64 KiB: fitting frame delivered, over-long frame overflows");
+    vf::count_case(vf::hash_bytes(s.data(), s.size(), vf::mix(k, cap)), true);
+    flush_cov();
+}
+VF_SUITE(bigbuf, big_count, big_run)
+
+// (7) EXTRA configuration dimension, beyond the letter of the statement ("both marker alphabets"): caller-defined
+// gstuff_context values, START != STOP and START == STOP.  Reduced workload, same clauses (a)-(d); keys are
+// prefixed "custom-alphabet:".
+static void custom_exhaustive(int cap, int L)
+{
+    Bytes al = stream_alphabet(CUSTOM);
+    uint64_t A = al.size(), cnt = 1, n = 0;
+    Bytes s;
+    for (int len = 0; len <= L; len++, cnt *= A)
+    {
+        for (uint64_t t = 0; t < cnt; t++)
+        {
+            s.resize(len);
+            uint64_t x = t;
+            for (int i = 0; i < len; i++, x /= A)
+                s[i] = al[x % A];
+            run_and_audit(CUSTOM, cap, s, (unsigned)t);
+        }
+        n += cnt;
+    }
+    vf::count_bulk(n, n - 1);
+}
+static uint64_t custom_count() { return 2 * (uint64_t)(3 * 17 + (vf::thorough() ? 400 : 20)); }
+static void custom_run(uint64_t idx)
+{
+    bool shared = idx % 2;
+    Alpha a = custom_alpha(vf::seed(), idx / 2, shared);
+    set_custom(a);
+    vf::Rng r(vf::seed(), 0xC05C05, idx);
+    if (vf::verbose())
+        printf("  custom alphabet START=%02x STOP=%02x STUB=%02x codes=%02x %02x %02x\n", a.START, a.STOP, a.STUB, a.C_START, a.C_STOP, a.C_STUB);
+    for (int cap : CAPS)
+        custom_exhaustive(cap, 4);
+    fault_body(CUSTOM, r, idx);
+    for (int i = 0; i < 20; i++)
+        noise_body(CUSTOM, r, idx);
+    for (int i = 0; i < 3; i++)
+        fit_body(CUSTOM, r, r.next());
+    directed_body(CUSTOM, r, idx);
+    VF_OK("custom-alphabet: clauses (a)-(d) over a caller-defined gstuff_context (extra dimension)");
+    if (shared)
+        VF_OK("custom-alphabet: START == STOP variant");
+    else
+        VF_OK("custom-alphabet: START != STOP variant");
+    if (a.START == 0xFF || a.STOP == 0xFF || a.STUB == 0xFF)
+        VF_OK("custom-alphabet: 0xFF as a marker");
+    if (vf::want_sample() && idx == 17)
+        vf::sample("custom: alphabet START=%02x STOP=%02x STUB=%02x codes=%02x,%02x,%02x; all streams <= 4 x caps {2,3,4,8}, faults, noise, fit, directed", a.START,
+                   a.STOP, a.STUB, a.C_START, a.C_STOP, a.C_STUB);
+    flush_cov();
+}
+VF_SUITE(custom, custom_count, custom_run)
 
 static uint64_t calib_count() { return 1; }
 static void calib_run(uint64_t)
@@ -675,6 +785,11 @@ extern "C" void vf_setup()
                           "fault-injected stream (drop/dup/flip/insert/truncate at one position)", "garbage ++ F1 F2 F3 stream",
                           "frame of |U| in cap-2..cap+2 embedded in good traffic", "START STUB x body STOP stream", "stray delimiter then three frames",
                           "reference alphabets == shipped gstuff_context values", "status:v1:NEWPACKAGE", "status:v1:OVERFLOW", "status:v0:NEWPACKAGE",
-                          "status:v0:OVERFLOW", "status:legacy:NEWPACKAGE", "status:legacy:OVERFLOW"})
+                          "status:v0:OVERFLOW", "status:legacy:NEWPACKAGE", "status:legacy:OVERFLOW",
+                          "receive buffer >= 64 KiB: fitting frame delivered, over-long frame overflows",
+                          "custom-alphabet: clauses (a)-(d) over a caller-defined gstuff_context (extra dimension)", "custom-alphabet: (b) checked",
+                          "custom-alphabet: (c) checked", "custom-alphabet: (d) after a non-empty prefix", "custom-alphabet: START == STOP variant",
+                          "custom-alphabet: START != STOP variant", "custom-alphabet: 0xFF as a marker", "status:custom:NEWPACKAGE",
+                          "status:custom:OVERFLOW"})
         vf::require(c);
 }
